@@ -43,9 +43,9 @@ impl AssignmentIter {
 //%% @pub
 //%% @ret r
 //%% @rewrite 1 /Option<Self::Item>/ => Option<Vec<bool>>
-//%% @rewrite 1 /Some\(\(0\.\.self\.num_vars\)\.map\(\|_\| false\)\.collect\(\)\)/ => Some({ let mut mc__out: Vec<bool> = Vec::new(); let mut mc__i: usize = 0; while mc__i < self.num_vars invariant mc__i <= self.num_vars, mc__out@.len() == mc__i, all_false(mc__out@) decreases self.num_vars - mc__i { mc__out.push(false); mc__i += 1; } mc__out })
+//%% @rewrite 1 /Some\(\((\w+)\.\.self\.num_vars\)\.map\(\|_\| (\w+)\)\.collect\(\)\)/ => Some({ let mut mc__out: Vec<bool> = Vec::new(); let mut mc__i: usize = \1; while mc__i < self.num_vars invariant mc__i <= self.num_vars, mc__out@.len() == mc__i, all_false(mc__out@) decreases self.num_vars - mc__i { mc__out.push(\2); mc__i += 1; } mc__out })
 //%% @rewrite 2 /self\.cur\.clone\(\)/ => verif_clone_opt(&self.cur)
-//%% @rewrite 1 /let \(new_c, carry\) = self\.cur\.as_ref\(\)\.unwrap\(\)\.iter\(\)\.fold\(\n\s*\(Vec::new\(\), true\),\n\s*\|\(mut cur_l, carry\), cur_assgn\| \{/ => let fold__v = self.cur.as_ref().unwrap(); let mut fold__acc: (Vec<bool>, bool) = (Vec::new(), true); let mut fold__i: usize = 0; while fold__i < fold__v.len() { let cur_assgn = &fold__v[fold__i]; let (mut cur_l, carry) = fold__acc;
+//%% @rewrite 1 /let \(new_c, carry\) = self\.cur\.as_ref\(\)\.unwrap\(\)\.iter\(\)\.fold\(\n\s*\(Vec::new\(\), (\w+)\),\n\s*\|\(mut cur_l, carry\), cur_assgn\| \{/ => let fold__v = self.cur.as_ref().unwrap(); let mut fold__acc: (Vec<bool>, bool) = (Vec::new(), \1); let mut fold__i: usize = 0; while fold__i < fold__v.len() { let cur_assgn = &fold__v[fold__i]; let (mut cur_l, carry) = fold__acc;
 //%% @rewrite 1 /\(cur_l, new_carry\)\n\s*\},\n\s*\);/ => fold__acc = (cur_l, new_carry); fold__i += 1; } let (new_c, carry) = fold__acc;
 //%% @rewrite 1 /cur_assgn \^ carry/ => (*cur_assgn != carry)
 //%% @spec
